@@ -638,13 +638,16 @@ static void walk_ops(int k, int arr) {
     }
 }
 
+static int lookups_anywhere = 0;
 static const char *ALLOPS[] = { "n", "n", "n", "io", "ia", "lo", "la", "gr", "gt", "gD", "gn", "gs", "gy", "gi", "gb", "gd", "v", "r", "N", "f", "F", "se", "ts", "pr" };
 static void any_op(int k) {
     const char *op = ALLOPS[rn(sizeof ALLOPS / sizeof *ALLOPS)];
     if (!strcmp(op, "N")) emit("@%d N %d", k, (int)rn(10));
     else if (!strcmp(op, "f") || !strcmp(op, "F")) {
-        /* lookups only with an object on top (documented assumption): flags of the level in use */
+        /* lookups only with an object on top (documented assumption): flags of the level in use; profile anyL (C16: "no call
+           sequence makes a call loop forever") issues them anywhere, in a binary built without UBSan's nonnull-attribute check */
         binson_parser *p = P[k].p;
+        if (lookups_anywhere) { emit_field(k, op, chance(8) ? &NM_EMPTY : pick_name(), (int)rn(10)); return; }
         if (p->error_flags == BINSON_ERROR_NONE && p->current_state && p->current_state->current_name.bptr == NULL && !(p->depth > 0 && (p->current_state->flags & 3))) { emit("@%d n", k); return; }
         if (p->error_flags == BINSON_ERROR_NONE && !(p->current_state->flags & 3)) { emit("@%d gt", k); return; }
         emit_field(k, op, chance(8) ? &NM_EMPTY : pick_name(), (int)rn(10));
@@ -755,6 +758,7 @@ static void emit_wblob(int k, const char *op, int texty) {
 }
 static void emit_wobject(int k, int depth, int *budget) {
     emit("@%d wob", k); int n = (int)rn(4), idx = (int)rn(NNM / 2);
+    if (chance(20)) { n = 2 + (int)rn(5); idx = (int)rn(NNM - 4); }   /* more fields, names from the whole pool: ASCII next to bytes >= 0x80 in one object */
     for (int i = 0; i < n && idx < NNM && *budget > 0; i++) {
         (*budget)--; Name *nm = &NM[idx]; char *h = hexs((const uint8_t *)nm->s, (size_t)nm->n);
         int nul = 0; for (int j = 0; j < nm->n; j++) if (!nm->s[j]) nul = 1;
@@ -1030,6 +1034,7 @@ int main(int argc, char **argv) {
             else if (!strcmp(prof, "navg")) gen_nav(id, 1);
             else if (!strcmp(prof, "walk")) gen_walk(id);
             else if (!strcmp(prof, "any")) gen_any(id);
+            else if (!strcmp(prof, "anyL")) { lookups_anywhere = 1; gen_any(id); }
             else if (!strcmp(prof, "stream")) gen_stream(id);
             else if (!strcmp(prof, "print")) gen_print(id, thorough);
             else if (!strcmp(prof, "writer")) gen_writer(id, thorough);
